@@ -439,6 +439,22 @@ theorem inv_send {st : State} (h : Inv st) (k p : Nat) : Inv (doSend st k p).1 :
           · exact ⟨ok.table, ok.clonesAcc, ok.unsubAcc, ok.closeAcc, ok.orphAcc, ok.closeTask, ok.closeHandler, ok.displAcc⟩
           · simp [Conn.push, Sub.holds]
 
+theorem inv_sendResume {st : State} (h : Inv st) (k p : Nat) : Inv (doSendResume st k p).1 := by
+  unfold doSendResume
+  split
+  · exact h
+  · rename_i s cn hl
+    have ok := h.subOk s (lookup_mem hl)
+    split
+    · exact h
+    · split
+      · exact h
+      · split
+        · exact h
+        · refine inv_put h hl rfl rfl rfl (fun hh => Or.inl hh) ?_ rfl ?_
+          · exact ⟨ok.table, ok.clonesAcc, ok.unsubAcc, ok.closeAcc, ok.orphAcc, ok.closeTask, ok.closeHandler, ok.displAcc⟩
+          · simp [Conn.push, Sub.holds]
+
 theorem inv_clone {st : State} (h : Inv st) (k : Nat) : Inv (doClone st k).1 := by
   unfold doClone
   split
@@ -591,7 +607,7 @@ theorem inv_subscribe {st : State} (h : Inv st) (c m rid sid : Nat) : Inv (doSub
       · rename_i hpf
         have hpf : cn.permitsFree ≠ 0 := by simpa using hpf
         have newrec : ∀ (i : Nat) (t : Sub),
-            (st.subs ++ [({ conn := c, meth := m, subId := sid, reqId := rid } : Sub)])[i]? = some t →
+            (st.subs ++ [({ conn := c, meth := m, subId := sid, reqId := rid, handlerDone := rawMeth m, taskDone := rawMeth m } : Sub)])[i]? = some t →
             t.inTable = true → st.subs[i]? = some t := by
           intro i t hi ti
           rw [List.getElem?_append] at hi
@@ -663,6 +679,7 @@ theorem inv_step {st : State} (h : Inv st) (op : Op) : Inv (step st op).1 := by
   | reject k code => exact inv_refuse h k code .rejected (by decide) (by decide)
   | dropPending k => exact inv_refuse h k internalCode .dropped (by decide) (by decide)
   | send k p => exact inv_send h k p
+  | sendResume k p => exact inv_sendResume h k p
   | cloneSink k => exact inv_clone h k
   | dropSink k => exact inv_dropSink h k
   | isClosed k =>
@@ -813,8 +830,8 @@ theorem clean_step {st : State} (hi : Inv st) (h : Clean st) (op : Op) (hf : idF
           · exact clean_conns h _
           · exact h
         · have old : ∀ (i : Nat) (t : Sub),
-              (st.subs ++ [({ conn := c, meth := m, subId := sid, reqId := rid } : Sub)])[i]? = some t →
-              st.subs[i]? = some t ∨ (i = st.subs.length ∧ t = { conn := c, meth := m, subId := sid, reqId := rid }) := by
+              (st.subs ++ [({ conn := c, meth := m, subId := sid, reqId := rid, handlerDone := rawMeth m, taskDone := rawMeth m } : Sub)])[i]? = some t →
+              st.subs[i]? = some t ∨ (i = st.subs.length ∧ t = { conn := c, meth := m, subId := sid, reqId := rid, handlerDone := rawMeth m, taskDone := rawMeth m }) := by
             intro i t hit
             rw [List.getElem?_append] at hit
             split at hit
@@ -888,6 +905,18 @@ theorem clean_step {st : State} (hi : Inv st) (h : Clean st) (op : Op) (hf : idF
         · exact clean_put h hl rfl rfl rfl (by intro _; simp [Sub.live, hph]) (by simpa using f6)
   | send k p =>
     simp only [step, doSend]
+    split
+    · exact h
+    · rename_i s cn hl
+      split
+      · exact h
+      · split
+        · exact h
+        · split
+          · exact h
+          · exact clean_put h hl rfl rfl rfl (by simp [Sub.live]) (by simpa using h.noDispl s (lookup_mem hl))
+  | sendResume k p =>
+    simp only [step, doSendResume]
     split
     · exact h
     · rename_i s cn hl
